@@ -81,7 +81,7 @@ def ctStr (keyStr : Nat → String) (l : List CommittedTxn) : String :=
     s!"{c.ts}:" ++ ",".intercalate ((c.conflictKeys.map keyStr).mergeSort (fun a b => decide (a ≤ b)))))
 
 def dumpStr (keyStr : Nat → String) (s : Sys) : String :=
-  s!"next={s.o.nextTxnTs} lc={s.o.lastCleanupTs} dt={s.o.discardTs} rd={s.o.readMark.doneUntil} td={s.o.txnMark.doneUntil} ct={ctStr keyStr s.o.committedTxns}"
+  s!"next={s.o.nextTxnTs} lc={s.o.lastCleanupTs} dt={s.o.discardTs} rd={s.o.readMark.doneUntil} td={s.o.txnMark.doneUntil} da={s.o.discardAtOrBelow} ct={ctStr keyStr s.o.committedTxns}"
 
 /-- `tid:readTs` of the transactions that were parked in `before` and are active in `after`. -/
 def wokeTxnStr (before after : List TxnSt) : String :=
